@@ -43,6 +43,24 @@ def stepOp (cls : Nat) (b : Builder) (op : String) : Option (Builder × String) 
           | .error e => e.render.replace " " "_"
         | _, _ => "noparse"
       some (b, s!"b={toHex bytes},len={b.byteLen},has={hasS},btid={MsgFam.hex24 b.tid},cls=1,p={parseShort bytes},v={val}")
+    else if r == "wp" then do
+      let fill ← ofHex ty
+      match fill with
+      | [f] =>
+        match b.writeInto (List.replicate b.byteLen f) with
+        | .error _ => some (b, "refused")
+        | .ok (k, d) =>
+          let bytes := d.take k
+          let val := if v == "-" then "-" else
+            match MsgFam.parseCreds v, msgFromBytes bytes with
+            | some c, .ok m =>
+              match m.validateIntegrity MsgFam.refHashes c with
+              | .ok .sha1 => "ok_sha1"
+              | .ok .sha256 => "ok_sha256"
+              | .error e => e.render.replace " " "_"
+            | _, _ => "noparse"
+          some (b, s!"wp={parseShort bytes},v={val}")
+      | _ => none
     else if r == "w" then do
       let n ← ty.toNat?
       let fill ← ofHex v
